@@ -302,12 +302,57 @@ CHECKS = {
 PENDING_REASON = "check not built yet in this session (work in progress; see DESIGN.md §10 for the order)"
 
 
+# theorems added after the first complete version: appended to the texts above
+ADDED = {
+    "C07": " C07_params / C07_params_step / C07_params_frame: for every letter other than G/M/T/X/Y/Z and every history and prefix, "
+           "get_parameter(letter) -- rounded as a line carries it -- is the word of that letter on the last emitted G0/G1/G38.x/G92/G28 line "
+           "that has one (values set or removed by move hooks included); every other call kind leaves the remembered parameters alone even "
+           "when rejected half-way. The Coq reference interpreters and the Python oracle must read the emitted programs alike.",
+    "C01": " The Coq position interpreter and the Python oracle must read the programs the implementation emitted alike (per run).",
+    "C02": " The Coq interlock scan and the Python oracle must read the programs the implementation emitted alike (per run).",
+    "C08": " C08_block / C08_number_is_plain: model of DefaultFormatter.command / parameters (instruction, then label+number words "
+           "separated by single spaces; a rejected value writes nothing); an independent reader gets back exactly the instruction and the "
+           "words, each word splits exactly into label and plain-decimal number text; compared byte for byte with formatter.command on "
+           "mixed scalar types; the words of builder-level histories are compared with the builder model.",
+    "C11": " C11_path_follows / C11_modes_agree / C11_machines_agree: for EVERY logical toolpath (absolute waypoints with any subset of "
+           "axes, shapes as vertex lists) phrased for absolute or for relative mode, after every item the builder is at the path's logical "
+           "position, the two executions agree after every prefix, and each emitted program read by the C01 interpreter leaves the machine "
+           "where its builder is. C11_vertex_lists_agree: to_absolute_list (polyline / spline arguments) is mode-independent; tied to the "
+           "real method. A quarter of the generated toolpaths run under a rotation / mirror / scale.",
+    "C12": " C12_filter_float: under the standard model of floating-point rounding (relative error u after every subtraction and on the "
+           "threshold), distances <= res and windows of at most K subtractions, the implementation's run is a robust run with "
+           "delta = (2K+1) u res; C12_window_length bounds K for the exact filter.",
+    "C14": " C14_utf8_roundtrip / C14_utf8_decode_strict / C14_text_stream_identity: model of str.encode('utf-8') and the strict "
+           "bytes.decode('utf-8'); whatever the decoder accepts is the encoding of what it returns, so a caller-owned text stream keeps the "
+           "bytes or the write raises; the codec model is compared with CPython's on boundary code points, random strings, mutated byte "
+           "strings and the non-ASCII lines emitted in the same run.",
+    "C15": " C15_job_no_semicolon / C15_job_plain_line / C15_job_command_trimmed (model of what _sendnext transmits for a job line: host "
+           "commands, gcode_strip_comment_exp as the leftmost scan re.sub performs, strip), C15_resend_formats (the resend-request parser "
+           "of _listen reads exactly k for seven firmware phrasings, every k), C15_accepted_trace_sender_run (soundness of the sender half "
+           "of the trace checker). Both text models are compared with the real regular expression / the real read loop per run.",
+    "C16": " C16_accepted_trace_is_run: every observed trace accepted by check_trace whose replies are answerable by a FIFO device IS a run "
+           "of the transition system with that observable projection (checker soundness + simulation), so the theorems about runs apply "
+           "to what was observed.",
+    "C20": " C20_running_total / C20_e_reset: with the bundled hook as the only hook in absolute extrusion mode, after ANY history "
+           "without explicit E reset, extrusion-mode or hook-list change the remembered E is the starting E plus area/cross x the XY "
+           "length of every accepted linear move; C20_hook_sees_program_move: for every accepted linear move() of every history each "
+           "hook is called once with the positions the independent interpreter derives from the lines emitted before / up to that "
+           "move. The hook language of the model includes a hook that returns a new mapping without a word.",
+}
+NOTE_FIX = {
+    "C07": ("The remembered move parameters (get_parameter) are covered by correspondence and oracle only, not by the theorem (partial there). ",
+            "The remembered move parameters are covered by C07_params. "),
+}
+
 def main():
     checks = []
     for pid in ALL:
         if pid not in CHECKS:
             continue
-        c = CHECKS[pid]
+        c = dict(CHECKS[pid])
+        c["text"] = c["text"] + ADDED.get(pid, "")
+        if pid in NOTE_FIX:
+            c["note"] = c["note"].replace(NOTE_FIX[pid][0], NOTE_FIX[pid][1])
         checks.append(dict(
             property_id=pid,
             quick_cmd="bin/check %s --tier quick" % pid,
